@@ -38,9 +38,9 @@ ASSUMPTIONS = [
   'SimDisk/SimGFile semantics match os / tensorflow.io.gfile on the operations flax uses (differentially tested by sim/selftests.py against a real directory)',
   'two spellings of one number, step 0 together with keep_every_n_steps, and prefixes that are prefixes of each other are not generated (corners the property does not pin down)',
   'with overwrite=True a crash in the middle of removing several newer steps may leave an intermediate newer step as latest; the oracle then requires latest to be a complete previously committed step (narrow reading, see DESIGN.md)',
-  'save_checkpoint_multiprocess, multi-host arrays, GCS paths, Orbax AsyncCheckpointer are not covered',
+  'save_checkpoint_multiprocess is covered on one host without multi-process arrays only; multi-host arrays, GCS paths, Orbax AsyncCheckpointer are not covered',
 ]
-PROBES = ['source_mutated_after_async_save', 'restore_by_path', 'orbax_histories', 'half_deleted_old_step', 'leftover_tmp_after_crash', 'crash_after_commit', 'crash_before_commit', 'retry_rejected_committed', 'overwrite_removed_newer', 'keep_every_retained', 'chunked_leaf', 'async_latest_in_flight', 'sweep_points', 'policy_error_expected', 'torn_write', 'ioerror_runs']
+PROBES = ['entry_multiprocess', 'source_mutated_after_async_save', 'restore_by_path', 'orbax_histories', 'half_deleted_old_step', 'leftover_tmp_after_crash', 'crash_after_commit', 'crash_before_commit', 'retry_rejected_committed', 'overwrite_removed_newer', 'keep_every_retained', 'chunked_leaf', 'async_latest_in_flight', 'sweep_points', 'policy_error_expected', 'torn_write', 'ioerror_runs']
 
 GOOD_PREFIXES = ['checkpoint_', 'ckpt', 'a_b_', 'run1_', 'model.x']
 BAD_PREFIXES = ['m-', 'v2.', 'run1']  # end in '-', '.', digit: were glued to the step before fix 943634b
@@ -134,6 +134,8 @@ def generate(rs, tier):
     asyn=asyn,
     pool=pool,
     stay_bias=g.choice([0.0, 0.5]),
+    # the second public save entry point (single host, no multi-process arrays): same promises, its own code path
+    entry='save_checkpoint_multiprocess' if g.random() < 0.12 else 'save_checkpoint',
   )
   if g.random() < float(__import__('os').environ.get('VERIF_ORBAX_SHARE', ORBAX_SHARE)):  # env override: diagnostics only
     knobs.update(backend='orbax', io_mode='DEFAULT', asyn=False, chunk=2**30)
@@ -199,6 +201,8 @@ def simplify(plan):
       yield dict(plan, schedule=c)
   if k['asyn']:
     yield dict(plan, knobs=dict(k, asyn=False))
+  if k.get('entry') == 'save_checkpoint_multiprocess':
+    yield dict(plan, knobs=dict(k, entry='save_checkpoint'))
   if k['chunk'] != 2**30:
     yield dict(plan, knobs=dict(k, chunk=2**30))
   if k['io_mode'] != 'DEFAULT':
@@ -556,7 +560,11 @@ class World:
     d = pathlib.PurePosixPath(self.dir) if (ent[0] % 4 == 1) else self.dir
     tree = self.tree_of(ent)
     try:
-      return checkpoints.save_checkpoint(
+      save = checkpoints.save_checkpoint
+      if self.k.get('entry') == 'save_checkpoint_multiprocess' and self.k['backend'] == 'legacy':
+        save = checkpoints.save_checkpoint_multiprocess
+        self.res.probe('entry_multiprocess')
+      return save(
         d, tree, op['step'], prefix=self.prefix, keep=op['keep'], overwrite=op['overwrite'], keep_every_n_steps=op['every'], async_manager=am
       )
     finally:
